@@ -38,6 +38,7 @@ pub fn floors() -> Vec<String> {
         "spelling:neghex",
         "accepted",
         "rejected",
+        "field:literal_offset_on_far_line",
     ] {
         v.push(extra.to_string());
     }
@@ -341,6 +342,35 @@ fn injected(rng: &mut Rng) -> Built {
     }
 }
 
+/// Valid literal offsets on statements placed around line 0x7FFF / 0xFFFF (the line arithmetic's
+/// own boundaries): must be accepted with exactly the written offset in the field.
+fn far_line_cases() -> Vec<(i32, usize, i32)> {
+    let mut v = Vec::new();
+    for pad in [0x7FFCi32, 0x7FFD, 0x7FFE, 0x7FFF, 0x8000, 0xFFFB, 0xFFFC, 0xFFFD] {
+        for (form, off) in [(0usize, 0i32), (0, 1), (0, -1), (0, 255), (0, -256), (1, 3), (6, 1023), (6, -1024), (3, -2)] {
+            v.push((pad, form, off));
+        }
+    }
+    v
+}
+
+fn far_line_program(pad: i32, form: usize, off: i32, rng: &mut Rng) -> Program {
+    let t = Target::Lit(off);
+    let stmt = match form {
+        0 => Stmt::Br(1 + rng.below(7) as u8, t),
+        1 => Stmt::Ld(rng.below(8) as u8, t),
+        3 => Stmt::Lea(rng.below(8) as u8, t),
+        _ => Stmt::Jsr(t),
+    };
+    Program {
+        items: vec![
+            Item::Stmt { label: None, stmt: Stmt::Blkw(pad) },
+            Item::Stmt { label: None, stmt },
+            Item::Stmt { label: None, stmt: Stmt::Alias(0x25) },
+        ],
+    }
+}
+
 pub fn run(cfg: &Cfg, col: &mut Collector) {
     let mat = matrix();
     let labs = label_cases();
@@ -351,7 +381,10 @@ pub fn run(cfg: &Cfg, col: &mut Collector) {
     let n_sym = cfg.n(60, 400, 5);
     let n_inj = cfg.n(3000, 100_000, 10);
     let (n_mat, n_lab) = if cfg.miri { (40, 8) } else { (n_mat, n_lab) };
-    let total = n_mat + n_lab + n_sym + n_inj;
+    let far = far_line_cases();
+    let n_far = if cfg.miri { 0 } else { far.len() as u64 };
+    let far = &far;
+    let total = n_mat + n_lab + n_sym + n_inj + n_far;
     let seed = cfg.seed;
     let (mat, labs) = (&mat, &labs);
     crate::util::run_cases_plain(total, cfg.only_case, cfg.threads, col, move |i| {
@@ -394,8 +427,15 @@ pub fn run(cfg: &Cfg, col: &mut Collector) {
                 tags: vec![tag.to_string()],
                 lit: LitStyle::Any,
             }
-        } else {
+        } else if i < n_mat + n_lab + n_sym + n_inj {
             injected(&mut rng)
+        } else {
+            let (pad, form, off) = far[(i - n_mat - n_lab - n_sym - n_inj) as usize];
+            Built {
+                program: far_line_program(pad, form, off, &mut rng),
+                tags: vec!["field:literal_offset_on_far_line".to_string()],
+                lit: LitStyle::Any,
+            }
         };
         one_case(built, &mut rng, i)
     });
